@@ -28,6 +28,10 @@ Oracle  : fit   : sparse.toarray() == dense == reference (sum over the edges - v
                   singular data on the model's own graph), made twice on the same live models in between the valid
                   queries: they raise (the explicit ValueError / LinAlgError where the code names one), models, graphs and
                   arguments are observably unchanged, the retry is refused alike, later queries run their normal oracle.
+          scale : SCALE letters on a small subset of graphs and one 24-vertex graph (large-size letter): the payload x 1e-6,
+                  x 1e-9, x 1e6, + 1e6, nearly equal vertices; with and without n_components.  Every oracle above applies
+                  (references in float64 from the re-expressed payload, tolerances relative to the data), plus
+                  equivariance: Q(sX) = Q(X)/s^2, Q(X+c) = Q(X), distances of re-expressed queries are unchanged.
           queries never change the observation of either model (queries_must_not_mutate).
 """
 import itertools
@@ -45,6 +49,7 @@ from mc.letters import rs
 TOL = {"f8": 1e-9, "f4": 1e-3}  # relative to max |reference precision entry| (DESIGN.md 3/C12: 1e-9 / 1e-3 for float32)
 TOL_MEAN = 1e-12  # absolute, times max(1, max |data|)
 TOL_MEAN_F4 = 1e-5  # the same for float32 training data (np.mean accumulates in float32: observed <= 2e-8)
+EPS_MEAN = {"f8": 1e-13, "f4": 1e-5}  # relative accuracy granted to x - mean (stored mean in float64 / float32)
 TOL_SAME_MODEL = 1e-9  # batch[i] vs single(i) of ONE model (same stored matrix, float64 arithmetic)
 TOL_EIGPAIR = {"f8": 1e-6, "f4": 1e-3}  # |Q c - c / l| relative to max |Q| (ARPACK residuals included)
 
@@ -139,6 +144,45 @@ BOOL_FORMS = ("b1", "pylist-bool", "pc-b1")
 #   float16 training data -> np.mean works in half precision (mean wrong by 1e-2)
 #   a LIST of PointClouds of mixed dtype whose first element is integer -> menpo.math.as_matrix allocates the data
 #   matrix with the dtype of the first element and truncates the others (reported; defect of as_matrix)
+
+# SCALE letters: the generic payload (data AND queries) re-expressed at other legal magnitudes, on a small fixed subset
+# of the roots (SCALE_GRAPHS x k) plus one large-size root.  Uniform scaling / a common offset keep every block covariance
+# exactly as well conditioned as the generic payload.
+SCALE_FEEDS = [
+    "x1e-6",  # every value times 1e-6  (covariances ~1e-12, precision ~1e+12)
+    "x1e-9",  # every value times 1e-9
+    "x1e6",  # every value times 1e+6
+    "offset1e6",  # every value plus 1e+6 (offset / spread ~ 1e6): the centring has to cancel six digits
+    "near-equal",  # every vertex carries vertex 0's features plus 1e-6 times its own: vertices nearly, not exactly, equal.
+    #               Edgeless graphs and subtraction mode only (a concatenated block of nearly equal vertices is not
+    #               well conditioned, which the property excludes)
+]
+SCALE_FACTOR = {"x1e-6": 1e-6, "x1e-9": 1e-9, "x1e6": 1e6}
+SCALE_NCOMP = ["none", "dim-1", "dim+1"]  # plain inverse, a real truncation, and the SVD path keeping everything
+SCALE_GRAPHS = [
+    ("U", 2, (), -1),
+    ("U", 2, ((0, 1),), -1),
+    ("U", 3, ((0, 1), (1, 2)), -1),
+    ("U", 3, ((0, 1),), -1),  # vertex 2 isolated
+    ("T", 3, ((1, 0), (1, 2)), 1),
+    ("D", 3, ((0, 1), (2, 0)), -1),
+]
+# the large-SIZE letter: one graph with many vertices (a chain with two chords), 2 features per vertex
+LARGE_NV = 24
+LARGE_GRAPH = ("U", LARGE_NV, tuple((i, i + 1) for i in range(LARGE_NV - 1)) + ((0, 12), (5, 23)), -1)
+EPS = 2.2e-16
+
+
+def scale_transform(A, letter, nv, k):
+    """the payload A (rows of nv*k values) re-expressed at the magnitude of a SCALE letter."""
+    if letter in SCALE_FACTOR:
+        return A * SCALE_FACTOR[letter]
+    if letter == "offset1e6":
+        return A + 1.0e6
+    if letter == "near-equal":
+        return np.tile(A[:, :k], (1, nv)) + 1.0e-6 * A
+    raise ValueError(letter)
+
 
 # REFUSED-CALL letters: calls the unchanged tree refuses with an exception, made on the SAME live models / graph in
 # between the valid queries.  kind -> (what is called, expected exception class or None where nothing names one)
@@ -326,6 +370,46 @@ def gmrf_data(seed, nv, k):
     raise RuntimeError("conditioning guard could not be satisfied for %r" % ((nv, k),))
 
 
+def _block_ok(M):
+    lam = np.linalg.eigvalsh(ref_cov(M, 0))
+    b = len(lam)
+    ranks = set(nc_value(nc, b) for nc in nc_letters(b) if nc != "none")
+    return lam[0] > 0 and lam[-1] / lam[0] <= COND_MAX and all(lam[b - r] / lam[b - r - 1] >= GAP_MIN for r in ranks if 1 <= r < b)
+
+
+def gmrf_data_large(seed, nv, k, edges):
+    """the same kind of data letter for a graph with many vertices: the guard is imposed on the blocks THIS graph asks for
+    (every vertex; every edge concatenated and subtracted) and the features are drawn vertex after vertex (a vertex is
+    redrawn until its own blocks pass), because a joint redraw of 70 blocks would never terminate."""
+    key = (seed, nv, k, "large")
+    if key in _DATA:
+        return _DATA[key]
+    d = nv * k
+    X = np.zeros((N_SAMPLES, d))
+    nbrs = {v: [a if b == v else b for a, b in edges if v in (a, b) and (a if b == v else b) < v] for v in range(nv)}
+    for v in range(nv):
+        for attempt in range(5000):
+            r = rs(seed, "c12-gmrf-large", nv, k, v, attempt)
+            Xv = r.randn(N_SAMPLES, k).dot(np.eye(k) + 0.35 * r.randn(k, k)) + 2.0 * r.rand(k)
+            if nbrs[v]:
+                Xv = Xv + 0.3 * X[:, nbrs[v][0] * k : (nbrs[v][0] + 1) * k]  # correlated with a neighbour
+            ok = _block_ok(Xv)
+            for u in nbrs[v]:
+                Xu = X[:, u * k : (u + 1) * k]
+                ok = ok and _block_ok(np.hstack((Xu, Xv))) and _block_ok(Xu - Xv)
+            if ok:
+                X[:, v * k : (v + 1) * k] = Xv
+                break
+        else:
+            raise RuntimeError("conditioning guard could not be satisfied for vertex %d of the large graph" % v)
+    r = rs(seed, "c12-gmrf-large-q", nv, k)
+    q = X.mean(axis=0) + 1.5 * r.randn(3, d)
+    qb = r.rand(2, d) > 0.5
+    qb[1] = ~qb[0]
+    _DATA[key] = (X, q, np.rint(XI_SCALE * X), qb)
+    return _DATA[key]
+
+
 # ---------------------------------------------------------------------------------------------------
 def _try(fn):
     try:
@@ -434,13 +518,13 @@ class C12(Check):
 
     def roots(self):
         if getattr(self, "_roots", None) is None:
-            self._roots = [g + (k,) for g in self._graphs() for k in self._ks(g)]
+            self._roots = [g + (k,) for g in self._graphs() for k in self._ks(g)] + [LARGE_GRAPH + (2,)]
         return self._roots
 
     # ------------------------------------------------------------------ state
     def build(self, root):
         kind, nv, edges, rootv, k = root
-        X, q, Xi, qb = gmrf_data(self.seed, nv, k)
+        X, q, Xi, qb = gmrf_data(self.seed, nv, k) if nv <= 4 else gmrf_data_large(self.seed, nv, k, edges)
         st = {"root": root, "nv": nv, "k": k, "edges": tuple(tuple(e) for e in edges), "X0": X, "q0": q, "Xi": Xi, "qb": qb, "cfg": None, "models": None, "ref": None}
         self._payload(st, "array")
         deg = [0] * nv
@@ -454,13 +538,36 @@ class C12(Check):
         """the values the model is trained on and queried with: generic payload, or the integer-valued one."""
         if feed in XI_FEEDS:
             X, q = st["Xi"], XI_SCALE * st["q0"]
+        elif feed in SCALE_FEEDS:
+            X, q = scale_transform(st["X0"], feed, st["nv"], st["k"]), scale_transform(st["q0"], feed, st["nv"], st["k"])
         else:
             X, q = st["X0"], st["q0"]
         st["X"], st["q"] = X, q
         st["qi"] = np.clip(np.rint(q), 0, 255)
         st["mu"] = X.sum(axis=0) / X.shape[0]
-        st["xscale"] = max(1.0, float(np.abs(X).max()))
+        st["xscale"] = float(np.abs(X).max())  # every tolerance is relative to the magnitude of the data
         st["tol_mean"] = TOL_MEAN_F4 if feed in F4_MEAN_FEEDS else TOL_MEAN
+        st["tol_floor"] = 0.0
+
+    def _tol(self, st, table=TOL):
+        """tolerance of this state: the table value of its precision letter, but never below 100 x the rounding error that
+        the magnitude of the data forces on ANY float64 evaluation of the definition (see `_amplification`)."""
+        return max(table[self._qtol(st)], st["tol_floor"])
+
+    @staticmethod
+    def _amplification(X, nv, k, edges, mode):
+        """(largest |value|) / (spread of the least spread block the model looks at) x COND_MAX: how much the relative
+        rounding error of the stored data is amplified in an inverted block covariance.  ~1e3 for the generic payload
+        and for uniform scalings, ~1e9 x 1e3 when a common offset or a common component has to cancel first."""
+        sl = [slice(v * k, (v + 1) * k) for v in range(nv)]
+        if not edges:
+            blocks = [X[:, sl[v]] for v in range(nv)]
+        elif mode == "concatenation":
+            blocks = [np.hstack((X[:, sl[a]], X[:, sl[b]])) for a, b in edges]
+        else:
+            blocks = [X[:, sl[a]] - X[:, sl[b]] for a, b in edges]
+        spread = min(float(np.sqrt(np.linalg.eigvalsh(ref_cov(M, 0))[-1])) for M in blocks)
+        return float(np.abs(X).max()) / spread * COND_MAX
 
     def _qtol(self, st):
         """tolerance letter of distances: float32 when the stored precision OR the stored mean is single precision."""
@@ -484,9 +591,18 @@ class C12(Check):
             out = []
             ncomps = NCOMP_QUICK if self.tier == "quick" else NCOMP_THOROUGH
             feeds = FEEDS
-            if st["root"][0] == "D" and st["nv"] == 4:
+            if (st["root"][0] == "D" and st["nv"] == 4) or st["nv"] > 4:
                 feeds = ["array"]
             enabled = {mode: nc_letters(block_size(st["edges"], mode, st["k"])) for mode in MODES}
+            if st["nv"] > 4:
+                # the large-size letter: a small, fixed selection of configuration and scale letters
+                for mode in MODES:
+                    for bias, nc, dt in ((0, "none", "f8"), (1, "dim-1", "f4"), (0, "dim-1", "f8"), (1, "none", "f4")):
+                        out.append(("fit", mode, bias, nc, dt, "array"))
+                    for feed in ("x1e-6", "offset1e6"):
+                        for nc in ("none", "dim-1"):
+                            out.append(("fit", mode, 0, nc, "f8", feed))
+                return out
             for feed in feeds:
                 for dt in DTYPES:
                     for nc in ncomps:
@@ -509,6 +625,15 @@ class C12(Check):
                 for feed in FORM_FEEDS:
                     for mode in MODES:
                         out.append(("fit", mode, 0, "none", "f8", feed))
+            # scale letters: on the small subset of graphs and on the large graph; with and without n_components
+            if tuple(st["root"][:4]) in SCALE_GRAPHS:
+                for feed in SCALE_FEEDS:
+                    for nc in SCALE_NCOMP:
+                        for mode in MODES:
+                            if feed == "near-equal" and st["edges"] and mode == "concatenation":
+                                continue
+                            if nc in enabled[mode]:
+                                out.append(("fit", mode, 0, nc, "f8", feed))
             return out
         if st["models"] is None:
             return []
@@ -520,7 +645,8 @@ class C12(Check):
             out.append(("maha", q, 1, 1))
         out.append(("maha", "zero", 1, 0))
         out.append(("maha", "zero", 0, 0))  # value exactly 0: the quadratic form of the zero vector is 0
-        out.append(("pca",))
+        if st["nv"] <= 4:
+            out.append(("pca",))  # (not on the large graph: ARPACK needs ~0.6 s per model there, and PCA is only a side channel)
         # refused calls, in between the valid queries (they are self loops: the live models are kept, and every later
         # query runs its normal oracle on models that have seen the refusals)
         # (the increment refusal on every model; the others do not depend on how the precision was estimated and run on
@@ -538,7 +664,7 @@ class C12(Check):
             out.insert(2 + 3 * i, rop)
         # argument forms of the query: on every model with the plain inverse and bias 0 (the query path does not
         # depend on how the precision was estimated; graph, k, mode, stored dtype, storage and class all vary)
-        if st["cfg"][1] == 0 and st["cfg"][2] == "none":
+        if st["cfg"][1] == 0 and st["cfg"][2] == "none" and st["cfg"][4] not in SCALE_FEEDS:
             pc = st["cfg"][4].startswith("pc")
             if st["cfg"][4] in FORM_FEEDS:
                 # model trained from another data form: the dtype forms of one vector only (training form x query
@@ -559,7 +685,7 @@ class C12(Check):
     def _feed(self, st, rows, feed):
         rows = np.array(rows, dtype=float, copy=True)
         if not feed.startswith("pc"):
-            return present(rows, feed[:-2] if feed.endswith("-n") else feed)
+            return present(rows, "array" if feed in SCALE_FEEDS else feed[:-2] if feed.endswith("-n") else feed)
         from menpo.shape import PointCloud
 
         dt = {"pc-i8": np.int64, "pc-f4": np.float32}.get(feed, np.float64)
@@ -616,6 +742,16 @@ class C12(Check):
         st["models"] = models
         st["ref"] = ref_precision(st["X"], st["nv"], st["k"], st["edges"], mode, bias, ncv)
         st["qscale"] = float(np.abs(st["ref"]).max())
+        st["equiv"] = None
+        if feed in SCALE_FEEDS:
+            st["tol_floor"] = 100.0 * EPS * self._amplification(st["X"], st["nv"], st["k"], st["edges"], mode)
+            # what the property implies about re-expressed data: Q(s X) = Q(X) / s^2, Q(X + c) = Q(X), and for nearly
+            # equal vertices in subtraction mode the differences are exactly 1e-6 x the generic ones; distances of the
+            # re-expressed queries are those of the generic ones
+            fac = 1.0 / SCALE_FACTOR[feed] ** 2 if feed in SCALE_FACTOR else 1.0 if feed == "offset1e6" else (1.0e12 if st["edges"] else None)
+            if fac is not None:
+                R0 = ref_precision(st["X0"], st["nv"], st["k"], st["edges"], mode, bias, ncv)
+                st["equiv"] = {"R": fac * R0, "R0": R0, "mu0": st["X0"].sum(axis=0) / st["X0"].shape[0]}
         if not verify:
             return []
         return self._fit_oracle(st, op)
@@ -627,7 +763,7 @@ class C12(Check):
         nv, k, edges = st["nv"], st["k"], st["edges"]
         N = nv * k
         R, qs = st["ref"], st["qscale"]
-        tol = TOL[dt]
+        tol = self._tol(st)
         where = self._where(st, "fit")
         ctx = "graph %r, k=%d, letter %r" % (st["root"][:4], k, op[1:])
         fails = []
@@ -651,7 +787,7 @@ class C12(Check):
             P = P.astype(float)
             # (1) the definition
             err = float(np.abs(P - R).max()) / qs
-            self._worst("precision-%s-%s" % (name, dt), err)
+            self._worst("precision-%s-%s" % (name, dt if feed not in SCALE_FEEDS else feed), err)
             if err > tol:
                 i, j = np.unravel_index(np.argmax(np.abs(P - R)), P.shape)
                 fails.append(Failure(where, "%s-equals-definition" % name, "%s precision differs from the sum of scattered inverse block covariances by %.3g of max|Q| (tolerance %.1g) at entry (%d, %d): got %.9g expected %.9g (%s)" % (name, err, tol, i, j, P[i, j], R[i, j], ctx)))
@@ -687,6 +823,15 @@ class C12(Check):
                 fails.append(Failure(where, "mean-vector", "%s model: mean_vector %r is not the sample mean %r (%s)" % (name, mv, st["mu"], ctx)))
             if int(m.n_features_per_vertex) != k or int(m.n_features) != N or int(m.n_samples) != N_SAMPLES:
                 fails.append(Failure(where, "model-parameters", "%s model: n_features_per_vertex=%r n_features=%r n_samples=%r, expected %d %d %d (%s)" % (name, m.n_features_per_vertex, m.n_features, m.n_samples, k, N, N_SAMPLES, ctx)))
+        # (6) equivariance under re-expression of the data (scale letters)
+        if st["equiv"] is not None:
+            for name in ("sparse", "dense"):
+                if dense[name].shape == (N, N):
+                    err = float(np.abs(dense[name].astype(float) - st["equiv"]["R"]).max()) / qs
+                    self._worst("equivariance-%s" % feed, err)
+                    if not err <= tol:
+                        fails.append(Failure(where, "scale-equivariant", "%s precision of the re-expressed data (%s) differs from the correspondingly rescaled precision of the generic data by %.3g of max|Q| (tolerance %.1g) (%s)" % (name, feed, err, tol, ctx)))
+            self.note("equivariance:%s" % feed)
         # (5) storage independence, directly
         if dense["sparse"].shape == dense["dense"].shape == (N, N):
             err = float(np.abs(dense["sparse"].astype(float) - dense["dense"].astype(float)).max()) / qs
@@ -848,8 +993,9 @@ class C12(Check):
         self.note("mean:%s" % ("agrees" if not fails else "differs"))
         return fails
 
-    def _query_rows(self, st, q):
-        mu, g = st["mu"], st["q"]
+    def _query_rows(self, st, q, mu=None, g=None):
+        if mu is None:
+            mu, g = st["mu"], st["q"]
         if q == "mean":
             return mu[None, :].copy(), "1d"
         if q == "single":
@@ -882,19 +1028,36 @@ class C12(Check):
             return m.mahalanobis_distance([r.copy() for r in rows], **kw)
         return m.mahalanobis_distance(rows.copy(), **kw)
 
+    def _dist_scale(self, st, D, X, tol):
+        """per-query magnitude s such that |d - reference| <= tol * s is the judgement: max|Q| |D|^2 (the natural size of
+        the quadratic form) plus what the granted relative accuracy of x - mean contributes.  No absolute constant:
+        everything scales with the data."""
+        qs, mu = st["qscale"], st["mu"]
+        a = np.abs(D).sum(axis=1)
+        dd = EPS_MEAN["f4" if st["cfg"][4] in F4_MEAN_FEEDS else "f8"] * (np.abs(mu).sum() + np.abs(X).sum(axis=1))
+        return qs * (a ** 2 + (2 * a * dd + dd ** 2) / tol)
+
     def _q_maha(self, st, op, verify):
         if not verify:
             return []
         _, q, sub, root = op
         dt = self._qtol(st)
-        tol = TOL[dt]
+        tol = self._tol(st)
         rows, form = self._query_rows(st, q)
         n = rows.shape[0]
         mu, R, qs = st["mu"], st["ref"], st["qscale"]
         D = rows - mu if sub else rows
         ref = np.einsum("ij,jk,ik->i", D, R, D)
-        scale = qs * (np.abs(D).sum(axis=1) + np.abs(mu).sum() + 1.0) ** 2
+        scale = self._dist_scale(st, D, rows, tol)
         ref_out = np.sqrt(np.maximum(ref, 0.0))
+        # scale letters: the distance of a re-expressed query equals the distance of the generic query in the generic model
+        ref0 = None
+        eq = st.get("equiv")
+        feed = st["cfg"][4]
+        if eq is not None and q != "zero" and (sub or feed in SCALE_FACTOR):
+            rows0, _ = self._query_rows(st, q, mu=eq["mu0"], g=st["q0"])
+            D0 = rows0 - eq["mu0"] if sub else rows0
+            ref0 = np.einsum("ij,jk,ik->i", D0, eq["R0"], D0)
         where = self._where(st, "maha")
         ctx = "query %r subtract_mean=%r square_root=%r, root %r letter %r" % (q, bool(sub), bool(root), st["root"], st["cfg"])
         fails = []
@@ -932,6 +1095,13 @@ class C12(Check):
                 i = int(np.argmax(bad))
                 at_mean = sub and not np.any(D[i])
                 fails.append(Failure(where, "zero-at-mean" if at_mean else "%s-equals-quadratic-form" % name, "%s model: distance[%d] = %.12g, (x-mu)^T Q (x-mu) with the reference precision = %.12g%s (%s)" % (name, i, arr[i], ref_out[i] if root else ref[i], " (the query IS the mean)" if at_mean else "", ctx)))
+            if ref0 is not None:
+                e0 = np.abs(sq - ref0) / scale
+                self._worst("maha-invariance-%s" % feed, float(e0.max()))
+                if np.any(e0 > tol):
+                    i = int(np.argmax(e0))
+                    fails.append(Failure(where, "distance-invariant-under-re-expression", "%s model trained on the re-expressed data (%s): distance[%d] = %.12g, the same query in the generic model has %.12g (%s)" % (name, feed, i, sq[i], ref0[i], ctx)))
+                self.note("maha:invariance-checked")
             # batched == single, on the same model
             if n > 1:
                 for i in range(n):
@@ -1010,13 +1180,13 @@ class C12(Check):
             return []
         _, form, shape, sub = op
         dt = self._qtol(st)
-        tol = TOL[dt]
+        tol = self._tol(st)
         V = self._form_values(st, form, shape)
         n = V.shape[0]
         mu, R, qs = st["mu"], st["ref"], st["qscale"]
         D = V - mu if sub else V
         ref = np.einsum("ij,jk,ik->i", D, R, D)
-        scale = qs * (np.abs(D).sum(axis=1) + np.abs(mu).sum() + 1.0) ** 2
+        scale = self._dist_scale(st, D, V, tol)
         where = self._where(st, "maha-form")
         ctx = "query form %r shape %r subtract_mean=%r values %r, root %r letter %r" % (form, shape, bool(sub), V.tolist(), st["root"], st["cfg"])
         fails = []
@@ -1069,7 +1239,7 @@ class C12(Check):
             return []
         dt = st["cfg"][3]
         feed = st["cfg"][4]
-        tol = TOL_EIGPAIR[dt]
+        tol = max(TOL_EIGPAIR[dt], st["tol_floor"])
         R, qs = st["ref"], st["qscale"]
         N = R.shape[0]
         where = self._where(st, "pca")
@@ -1114,6 +1284,7 @@ class C12(Check):
         need += ["ncomp-range:below-dim", "ncomp-range:equal-dim", "ncomp-range:between-dim-and-2dim", "ncomp-range:2dim-or-more", "maha-query:zero", "maha:zero-vector-without-mean-subtraction"]
         need += ["dtype:%s" % d for d in DTYPES] + ["feed:%s" % f for f in FEEDS + FORM_FEEDS] + ["k:1", "k:2", "k:3"]
         need += ["qform:%s-%s" % fs for fs in VEC_QFORMS + PC_QFORMS] + ["qform:agrees", "qform-opts:subtract0", "qform-opts:subtract1"]
+        need += ["feed:%s" % f for f in SCALE_FEEDS] + ["equivariance:%s" % f for f in SCALE_FEEDS] + ["maha:invariance-checked", "graph:U%d" % LARGE_NV]
         need += ["refuse:state-kept", "refuse:increment-raised-ValueError", "refuse:query-long-raised-ValueError", "refuse:query-long-nosub-raised-ValueError", "refuse:query-short-raised-ValueError", "refuse:ctor-mode-raised-ValueError", "refuse:ctor-singular-raised-LinAlgError"]
         need += ["sparsity:unjoined-pair-checked", "sparsity:isolated-vertex-checked", "sparsity:joined-pair-nonzero", "psd:singular", "psd:definite"]
         need += ["mean:agrees", "maha:agrees", "maha:at-mean-zero", "maha:positive", "maha:batch-vs-single-compared", "pca:dense-agrees", "pca:sparse-agrees"]
@@ -1152,6 +1323,9 @@ class C12(Check):
             "training_data_form_letters": FORM_FEEDS,
             "query_form_letters": ["%s/%s" % fs for fs in VEC_QFORMS + PC_QFORMS],
             "refused_call_letters": REFUSALS,
+            "scale_letters": SCALE_FEEDS,
+            "scale_letter_graphs": [repr(g) for g in SCALE_GRAPHS] + ["large graph: chain of %d vertices with two chords, k=2" % LARGE_NV],
+            "scale_letter_n_components": SCALE_NCOMP,
             "query_form_letters_without_mean_subtraction": ["%s/%s" % fs for fs in VEC_QFORMS_NOSUB + PC_QFORMS_NOSUB],
             "query_letters": QUERIES,
             "n_samples": N_SAMPLES,
@@ -1177,6 +1351,10 @@ class C12(Check):
             "refused calls (increment on a non-incremental model, wrong-size queries, invalid mode, singular data) are made twice on the same live models / graph in between the valid queries; they must raise (ValueError for increment and "
             "mode, LinAlgError for singular data, any exception for wrong sizes), leave models, graph and arguments exactly as they were, and every later query runs its normal oracle on the same models; "
             "not refusal letters because the unchanged tree does not refuse them: a query of length 1 (broadcast against the mean), an invalid mode on an edgeless graph (ignored), a singular covariance with n_components set (SVD path returns inf)",
+            "scale letters (payload x 1e-6, x 1e-9, x 1e6, + 1e6 offset, nearly equal vertices) run on %d small graphs x k in {1, 2, 3} and on the large graph, with n_components none / dim-1 / dim+1, both modes, bias 0, float64, ndarray feed; "
+            "nearly equal vertices only for edgeless graphs and subtraction mode (a concatenated block of nearly equal vertices is ill conditioned); every tolerance is relative to the magnitude of the data "
+            "(max|Q| for precisions, max|Q| |x - mu|^2 plus the granted accuracy of x - mu for distances, max|X| for means) and is never below 100 x eps x (max|X| / block spread) x %g, the rounding any float64 evaluation suffers when an offset has to cancel" % (len(SCALE_GRAPHS), COND_MAX),
+            "one large-size letter: a chain of %d vertices with two chords, 2 features per vertex, its data drawn vertex by vertex under the same guard restricted to the blocks that graph uses" % LARGE_NV,
             "incremental models are the subject of C11 and are not built here",
         ]
 
